@@ -430,7 +430,13 @@ def minimize_lbfgsb(
                 ),
             )
         else:
-            return checkpoint
+            # same state as the checkpoint, but the termination report must be the one
+            # of this call (the checkpoint carries the reason its own run stopped for)
+            res = copy.copy(checkpoint)
+            res.status = istate.warnflag
+            res.message = istate.task_str
+            res.success = istate.is_success
+            return res
 
     # Compute the first gradient if no checkpoint provided
     if checkpoint is None:
